@@ -286,3 +286,5 @@ func PlantCanary(path, tag string) []byte {
 	os.WriteFile(path, b, 0o644)
 	return b
 }
+
+func xmlDecode(b []byte, v any) error { return xml.Unmarshal(b, v) }
